@@ -922,7 +922,7 @@ class FamTMLE(FamAIPTW):
     diags = [('run_diagnostics', [0, 1], True, lambda o: o.run_diagnostics()),
              ('positivity', [0], False, lambda o: o.positivity()),
              ('standardized_mean_differences', [0], False, lambda o: o.standardized_mean_differences()),
-             ('plot_kde', [0], False, lambda o: o.plot_kde('exposure')),
+             ('plot_kde', [0, 1], False, lambda o: o.plot_kde('exposure')),
              ('plot_kde_outcome', [0, 1], False, lambda o: o.plot_kde('outcome')),
              ('plot_love', [0], False, lambda o: o.plot_love())]
 
